@@ -332,12 +332,19 @@ pub fn run(ctx: &Ctx, rep: &mut Report) {
             }
             rng.shuffle(&mut texts);
         } else {
-            for _ in 0..texts_per_world {
+            for k in 0..texts_per_world {
                 texts.push((hostile_text(&mut rng, &keys), None));
+                if k % 9 == 4 {
+                    // a non-empty analysis followed by two empty ones on the same tokenizer
+                    texts.push((String::new(), None));
+                    texts.push((String::new(), None));
+                }
             }
         }
+        let mut last_mi = 0usize;
         for (ti, (text, expect)) in texts.iter().enumerate() {
-            let mi = rng.below(3);
+            let mi = if text.is_empty() && ti > 0 { last_mi } else { rng.below(3) };
+            last_mi = mi;
             let mode = MODES[mi];
             if rng.chance(1, 6) {
                 let bits = rng.next() as u32;
